@@ -130,6 +130,15 @@ the operands: the pairwise rule is associative and commutative wherever it is de
 theorem bshapeN_order_irrelevant {l l' : List (List Nat)} (h : l.Perm l') : bshapeN l = bshapeN l' :=
   bshapeN_perm h
 
+/-- **bshape2_comm.** The pairwise rule is commutative: same shape, or `ValueError` both ways. -/
+theorem bshape2_comm (s1 s2 : List Nat) : bshape2 s1 s2 false = bshape2 s2 s1 false := bshape2_comm' s1 s2
+
+/-- **bshape2_assoc.** The pairwise rule is associative, errors included: broadcasting `a` with `b`
+and then with `c` is broadcasting `a` with the broadcast of `b` and `c`. -/
+theorem bshape2_assoc (a b c : List Nat) :
+    (bshape2 a b false >>= fun ab => bshape2 ab c false) =
+      (bshape2 b c false >>= fun bc => bshape2 a bc false) := bshape2_assoc' a b c
+
 /-- a single shape broadcasts to itself -/
 theorem bshapeN_single (s : List Nat) : bshapeN [s] = .ok s := by
   rw [bshapeN_of_ok, nDims_single]
@@ -201,6 +210,15 @@ theorem broadcastTo_get {α : Type} (x : COO α) (s : List Nat) (hwf : x.WF) (hn
     ∃ r, x.broadcastTo s = .ok r ∧ r.shape = s ∧ r.fill = x.fill ∧ r.WF ∧ r.keys.Nodup ∧
       ∀ j, InB j s → r.get j = x.get (projIdx x.shape s j) :=
   COO.broadcastTo_spec x s hwf hnd h
+
+/-- **broadcastTo_more_axes_witness.** The finding at array level (model = code, replayed on the
+implementation): `broadcast_to` of a `(2,3)` array to `(3,)` succeeds and returns a `(2,3)` array,
+where NumPy raises `ValueError`.  `broadcastTo_get` therefore carries the hypothesis that the code's
+shape computation returns the TARGET shape. -/
+theorem broadcastTo_more_axes_witness :
+    ∃ r, COO.broadcastTo (⟨[2, 3], [([0, 1], (5 : Int))], 0⟩ : COO Int) [3] = .ok r ∧ r.shape = [2, 3] ∧
+      specBroadcastTo [2, 3] [3] = none :=
+  ⟨_, rfl, rfl, by decide⟩
 
 /-- **broadcastTo_sorted_promise.** The `sorted=` claim: when `broadcast_to` computes
 `sorted = True` (the non-broadcast axes are adjacent, `expandSorted`) and the operand's entries are in
